@@ -543,6 +543,22 @@ def run_compile(case, st):
             finally:
                 common.plastex_reset()
             texs.append(tex)
+        if common.case_hash(case)[1] % 2 == 0:
+            # the consuming document once more in the same process (a build script, a watcher): what was restored for the first run is
+            # restored for this one too
+            cfg = R.new_config({('general', 'renderer'): rn, ('files', 'log'): False})
+            common.plastex_reset()
+            try:
+                texs[1] = Compile.parse(sub + case['consumer'] + '.tex', cfg)
+            except common.CaseTimeout:
+                raise
+            except Exception as e:
+                st.violation('compile/raises-' + type(e).__name__, case, 'compiling %s.tex a second time: %s' % (case['consumer'], traceback.format_exc()[-600:]))
+                return {'nontrivial': True}
+            finally:
+                os.chdir(tmp)
+                common.plastex_reset()
+            st.counters['consumer_compiled_twice'] += 1
         st.counters['compiled_pairs'] += 1
         pp = case['provider'] + '.paux'
         if not os.path.exists(pp):
